@@ -120,6 +120,17 @@ Theorem T18f_root_allocation_optimal_partial : forall (l : list (vgood * bool)) 
 Proof. exact root_allocation_optimal. Qed.
 Print Assumptions T18f_root_allocation_optimal_partial.
 
+(* non-vacuity: one GammaProfile inside good chosen at lam = 1/2 (consumption exp 0 * 1 / (1/2) - 1 = 1),
+   one unchosen with marginal utility 1/4 at zero *)
+Example T18f_example :
+  Forall (root_ok (1 / 2))
+         [(mkVGood VG None None (Some 1) 0 0 0 0, true); (mkVGood VG None None (Some 1) 0 (ln (1 / 4)) 0 0, false)].
+Proof.
+  repeat constructor; unfold root_ok, vgood_ok, params_ok, lam_ok, vg_X, vg_D, Xopt, D, pr_of, sc_eps; simpl;
+    rewrite ?Rplus_0_r, ?exp_0, ?exp_ln by lra; repeat split; try lra; try discriminate;
+    intros g [= <-]; lra.
+Qed.
+
 (* T18e. the outside good is always consumed: the code returns np.inf for it at zero consumption, which
    no finite dual variable dominates; mathematically its marginal utility is unbounded near zero in all
    four variants, and zero is outside the feasible set (clo = 0 < x) *)
@@ -133,6 +144,9 @@ Theorem T18e_outside_good_unbounded : forall v scale price alpha V mu eps lam,
   exists delta, 0 < delta /\ forall x, 0 < x < delta -> lam < D v scale price None alpha V mu x eps.
 Proof. exact outside_good_unbounded. Qed.
 Print Assumptions T18e_outside_good_unbounded.
+
+Example T18e_example : params_ok VT None None (1 / 2) /\ params_ok VN None None (- (1 / 2)).
+Proof. unfold params_ok, pr_of. repeat split; try lra; discriminate. Qed.
 
 (* T18g. the symbolic utility used by validation() (the tree built by utility_expression_one_alternative,
    stream `trees`) evaluates to the closed form computed by the numeric utility *)
@@ -148,6 +162,17 @@ Theorem T18g_symbolic_equals_numeric :
   = XR (U v scale price gamma alpha vV vM x eps).
 Proof. exact uexpr_value. Qed.
 Print Assumptions T18g_symbolic_equals_numeric.
+
+(* non-vacuity: GammaProfile inside good, gamma = Numeric(2), no price, no scale, at consumption 3 *)
+Example T18g_example : forall Phi en,
+  evalX Phi (uexpr VG (ENumZ 0) (ENumZ 0) None None (Some (ENumZ 2)) ANone (ENumZ 3) (ENumZ 0)) en
+  = XR (U VG None None (Some 2) 0 0 0 3 0).
+Proof.
+  intros Phi en. apply uexpr_value; simpl; auto; try discriminate;
+    try (unfold ENumZ; simpl; unfold D2R; simpl; f_equal; lra).
+  all: try (unfold params_ok, pr_of; repeat split; try lra; intros g [= <-]; lra).
+  all: try (unfold lo, pr_of; lra).
+Qed.
 
 (* T18h. labels.  Relabelling the alternatives by any map that is injective on the labels commutes with
    the table of marginal utilities at zero (the ordering key of the forecast) and with the consumption
